@@ -874,14 +874,22 @@ class _Rect:
     def bounds(self):
         return self.b
 
+    excess = 1.0
+
     @property
     def area(self):
         s, lo, e, hi = self.b
-        return max(e - s, 0.0) * max(hi - lo, 0.0)
+        return max(e - s, 0.0) * max(hi - lo, 0.0) * self.excess
 
     def intersection(self, other):
         s, lo, e, hi = max(self.b[0], other.b[0]), max(self.b[1], other.b[1]), min(self.b[2], other.b[2]), min(self.b[3], other.b[3])
-        return _Rect(s, lo, e, hi) if s <= e and lo <= hi else _Rect(0.0, 0.0, 0.0, 0.0)
+        r = _Rect(s, lo, e, hi) if s <= e and lo <= hi else _Rect(0.0, 0.0, 0.0, 0.0)
+        if self.b == other.b:
+            # GEOS computes the three areas separately: for a shape with itself the intersection can come out a few ulp ABOVE the
+            # shape's own area (1.000000000000067 was observed on the real library) -- modelled by a dyadic excess, so that a quotient
+            # that is not clamped exceeds 1 here as well
+            r.excess = 1.0 + 2.0 ** -20
+        return r
 
     def union(self, other):
         raise Unknown("union of shapes is not modelled")
@@ -947,7 +955,9 @@ def affinity_models(ctx):
 
     placements = (((1.0, 100.0, 3.0, 300.0), (2.0, 200.0, 5.0, 500.0)), ((1.0, 100.0, 9.0, 900.0), (2.0, 200.0, 3.0, 300.0)),
                   ((1.0, 100.0, 2.0, 300.0), (2.0, 100.0, 4.0, 300.0)), ((1.0, 100.0, 2.0, 200.0), (6.0, 700.0, 8.0, 900.0)),
-                  ((2.0, 200.0, 4.0, 400.0), (2.0, 200.0, 4.0, 400.0)))
+                  ((2.0, 200.0, 4.0, 400.0), (2.0, 200.0, 4.0, 400.0)),
+                  # zero extent in time on both sides (union 0 unless a buffer widens them): the result is 0, not a division by zero
+                  ((2.0, 200.0, 2.0, 400.0), (2.0, 200.0, 2.0, 400.0)), ((2.0, 200.0, 2.0, 400.0), (6.0, 200.0, 6.0, 400.0)))
     n = 0
     for t1 in types:
         for t2 in types:
@@ -983,9 +993,11 @@ def _settle_affinity(ctx, c, symmetry=True):
     except (Unknown, RecursionError):
         return
     file = ctx.index.module(AFF).relpath
+    # compute_affinity_in_time has its own decision on models (orderings of the bounds + decimal grid): its reports stay
+    own = lambda text: "compute_affinity_in_time" in (text or "")  # noqa: E731
     if res[1] is None:
-        if not st.clean():
-            st.withdraw()
+        if not st.clean_except(own):
+            st.withdraw(keep=own)
             what = f"agrees with the statement on all {res[0]} rectangle models (every ordered pair of geometry types, five placements, two buffer pairs, both argument orders)"
             for rid, k in (("R06.1", 2 if symmetry else 0), ("R06.2", 3), ("R06.3", 3), ("R06.4", 4), ("R06.5", 2)):
                 for _ in range(k):
